@@ -57,8 +57,8 @@ theorem insert_toList (p : Params K) (pv : p.Valid) (sw : StrictWeak p.lt) (t : 
       simp only at hres
       have hflat := insertDescend_flatten p pv k v h0 r0 1 1 hs r hr
       rw [insRank_eq_lbIdx p sw k h0 r0 1 1 hs hsort hsep] at hflat
-      have hshp := insertDescend_shape p pv k v h0 r0 1 1 (by have := pv.leaf4; simp [Params.leafMin]; omega)
-        (by have := pv.inner4; simp [Params.innerMin]; omega) hs r hr
+      have hshp := insertDescend_shape p pv k v h0 r0 1 1 (by have := pv.leaf4; simp [Params.leafMin, Gen.leafSlotmin]; omega)
+        (by have := pv.inner4; simp [Params.innerMin, Gen.innerSlotmin]; omega) hs r hr
       cases hsp : r.split with
       | none =>
         rw [hsp] at hres hflat
@@ -111,8 +111,8 @@ theorem insert_treeInv (p : Params K) (pv : p.Valid) (sw : StrictWeak p.lt) (t :
         simp only at hres
         have hl := pv.leaf4
         have hi := pv.inner4
-        have hml : 1 ≤ p.leafMin := by simp [Params.leafMin]; omega
-        have hmi : 1 ≤ p.innerMin := by simp [Params.innerMin]; omega
+        have hml : 1 ≤ p.leafMin := by simp [Params.leafMin, Gen.leafSlotmin]; omega
+        have hmi : 1 ≤ p.innerMin := by simp [Params.innerMin, Gen.innerSlotmin]; omega
         obtain ⟨hsep1, hsep2⟩ := insertDescend_sep p pv sw k v h0 r0 1 1 hml hmi hs hsort hsep r hr
         have hshp := insertDescend_shape p pv k v h0 r0 1 1 hml hmi hs r hr
         cases hsp : r.split with
